@@ -12,7 +12,7 @@ from ..core import Violation, rng_for, srepr, tier_pick
 ID = "C15"
 META = {
     "technique": "runtime monitoring: harness-owned month table + escape monitor on the real middlewares' transform over an exhaustive spelling space",
-    "level_text": "Every month spelling in the stated space (digit strings with 0-3, 40, 4299-4301 and 6000 leading zeros; all case variants) is run through all 3 middlewares and all 9 ordered pairs in both modes and compared with an independent table; non-month values are checked for unchanged value and type; hostile Unicode/huge digit strings for no-raise. Exhaustive on the stated finite space, sampled on hostile values.",
+    "level_text": "Every month spelling in the stated space (digit strings with 0-3, 40, 4299-4301 and 6000 leading zeros; all case variants) is run through all 3 middlewares and all 9 ordered pairs in both modes and compared with an independent table; non-month values are checked for unchanged value and type; hostile Unicode/huge digit strings for no-raise. Exhaustive on the stated finite space, sampled on hostile values. Context entries carry fields whose keys are case variants of month (mOnth, Month, MONTH) around the month field: they stay untouched and month is still converted.",
     "level_note": "trusts the 12-row table in the harness; bool/subclass/non-ASCII digit values only decide the no-raise clause",
 }
 RULE = ("case = one month value (spelling of a month 1..12, a stated non-month value, or a hostile value); "
